@@ -35,6 +35,14 @@ CONTRACTS = {
     "PartitioningO.get_root_name": dict(params=["self", "rank"], returns="str", **_OBS),
     "PartitioningO.get_offset": dict(params=["self", "rank"], returns="Optional[str]", **_OBS),
     "PartitioningO.get_step": dict(params=["self", "rank"], returns="Optional[str]", **_OBS),
+    # further public readers of Partitioning a translator may consult (unused on the unchanged tree; uninterpreted, so a
+    # guard rewritten in terms of them is checked against the property's clause for every behaviour they could have)
+    "PartitioningO.partition_rank": dict(params=["self", "rank"], returns="Optional[Tuple[str, ...]]", **_OBS),
+    "PartitioningO.get_final_rank_id": dict(params=["self", "ranks", "rank"], returns="str", **_OBS),
+    "PartitioningO.get_leader": dict(params=["self", "src", "dst"], returns="str", **_OBS),
+    "PartitioningO.get_dyn_rank": dict(params=["self", "rank"], returns="str", **_OBS),
+    "PartitioningO.get_intermediates": dict(params=["self", "tensor", "rank"], returns="List[str]", **_OBS),
+    "PartitioningO.split_rank_name": dict(params=["self", "rank"], returns="Tuple[str, str]", **_OBS),
     "TransEquation.__add_enumerate": dict(params=["self", "rank", "expr"], **_EXPR),
     "TransEquation.__make_input_iter_expr": dict(params=["self", "rank", "tensors"], **_EXPR),
     "TransEquation.__add_operator": dict(params=["expr1", "op", "expr2"], **_EXPR),
